@@ -35,7 +35,7 @@ def make_plan(spec: Dict[str, Any], seed: int, batch: Dict[str, Any], run: int, 
     if slots:
         # enumeration batch: `slots` consecutive runs share one base plan, slot j gets the j-th fault point
         rng = run_seed(seed, spec["stream"], batch["name"], run // slots)
-        plan = spec["profile"].gen_plan(rng, tier, **batch.get("args", {}))
+        plan = spec["profile"].gen_plan(rng, tier, **dict(batch.get("args", {}), base=run // slots))
         plan.setdefault("enumerate", {})["slot"] = run % slots
         plan["enumerate"]["base"] = run // slots
     else:
@@ -65,9 +65,15 @@ def _one_run(args: Tuple[int, str, int, str]) -> Dict[str, Any]:
             pts = enum.expand(enum.fault_points(dry, en["target"]), en["kinds"])
             n_slots = batch.get("slots", 1)
             if len(pts) > n_slots > 1:
-                # more points than slots (json.dump writes a plain .json token by token): take an evenly
-                # spaced sample that includes the first and the last point
-                pts = [pts[j * (len(pts) - 1) // (n_slots - 1)] for j in range(n_slots)]
+                # more points than slots (json.dump writes a plain .json token by token): the points on opens and
+                # on directory entries are few and all kept (at most half of the slots); the read / write calls
+                # get an evenly spaced sample that includes the first and the last one
+                rare = [pk for pk in pts if pk[0].get("type") in ("open", "fsop")][: n_slots // 2]
+                io = [pk for pk in pts if pk[0].get("type") not in ("open", "fsop")]
+                room = n_slots - len(rare)
+                if len(io) > room > 1:
+                    io = [io[j * (len(io) - 1) // (room - 1)] for j in range(room)]
+                pts = rare + io[:room]
                 sampled = True
             else:
                 sampled = False
